@@ -50,6 +50,14 @@ pub fn ser(t: &LuaType, top: bool) -> Result<String, &'static str> {
         {
             format!("(fn {})", ser(f.get_ret(), false)?)
         }
+        LuaType::DocFunction(f)
+            if FN_STRUCT.load(std::sync::atomic::Ordering::Relaxed)
+                && f.get_params().len() == 1
+                && f.get_params()[0].1.is_some() =>
+        {
+            let p = f.get_params()[0].1.as_ref().map(|t| ser(t, false)).unwrap_or(Err("param"))?;
+            format!("(fn1 {} {})", p, ser(f.get_ret(), false)?)
+        }
         LuaType::DocFunction(f) => format!("(f {})", hex(&func_id(f))),
         LuaType::Array(a) => {
             if !matches!(a.get_len(), emmylua_code_analysis::LuaArrayLen::None) {
